@@ -112,7 +112,10 @@ class C03Spec:
         d = Signal(name="d")
         ctl = {n: Signal(name=n) for n in CONTROLS}
         cnt = Signal(2, init=ini["cnt"], name="cnt")
-        rl = Signal(1, init=ini["rl"], reset_less=True, name="rl")
+        # reset_less and only partially driven: bit 1 is never assigned
+        rl = Signal(2, init=ini["rl"] | (ini["rl1"] << 1), reset_less=True, name="rl")
+        rw = Signal(1, init=ini["rw"], reset_less=True, name="rw")
+        rs = Signal(2, init=ini["rs0"] | (ini["rs1"] << 1), reset_less=True, name="rs")   # reset_less AND split between two domains
         # signed on purpose: its sign bit belongs to another module / domain than bit 0
         sp = Signal(signed(2), init=ini["sp0"] | (ini["sp1"] << 1), name="sp")
         cntb = Signal(2, init=ini.get("cntb", 0), name="cntb")
@@ -139,14 +142,14 @@ class C03Spec:
         class Leaf(Elaboratable):
             def elaborate(self, platform):
                 m = Module()
-                m.d["other" if two else "sync"] += sp[1].eq(~sp[1])
+                m.d["other" if two else "sync"] += [sp[1].eq(~sp[1])]
                 m.submodules.mem = mem = Memory(shape=1, depth=2, init=[ini["m0"], ini["m1"]])
                 wp = mem.write_port(domain="sync")
                 m.d.comb += [wp.addr.eq(cnt[0]), wp.data.eq(d), wp.en.eq(1)]
                 box["rdata"] = []
                 if "n" in cfg["ports"]:
                     rp = mem.read_port(domain="sync")
-                    m.d.comb += rp.addr.eq(rl)
+                    m.d.comb += rp.addr.eq(rl[0])
                     box["rdata"].append(rp.data)
                 if "t" in cfg["ports"]:
                     tp = mem.read_port(domain="sync", transparent_for=(wp,))
@@ -160,7 +163,7 @@ class C03Spec:
             def elaborate(self, platform):
                 m = Module()
                 def in_other():
-                    m.d.other += [cntb.eq(cntb + 1), rlb.eq(~rlb), sq[1].eq(~sq[1])]
+                    m.d.other += [cntb.eq(cntb + 1), rlb.eq(~rlb), sq[1].eq(~sq[1]), rs[1].eq(~rlb)]
                 if logic_b and cfg["order"] == "ba":      # this module uses m.d.other before m.d.sync
                     in_other()
                 # (same behaviour as cnt+1 / ~rl / ~sp[0]; written through If/Else and a slice of a Cat target
@@ -169,9 +172,10 @@ class C03Spec:
                     m.d.sync += cnt.eq(cnt + 1)
                 with m.Else():
                     m.d.sync += cnt.eq(cnt + 1)
-                m.d.sync += Cat(rl, sp)[0:2].eq(~Cat(rl, sp)[0:2])
+                m.d.sync += Cat(rl[0], sp)[0:2].eq(~Cat(rl[0], sp)[0:2])
+                m.d.sync += rw.eq(~rl[0])
                 if logic_b:
-                    m.d.sync += sq[0].eq(~sq[0])
+                    m.d.sync += [sq[0].eq(~sq[0]), rs[0].eq(~rl[0])]
                     if cfg["order"] == "ab":
                         in_other()
                 m.submodules.leaf = wrap(Leaf(), cfg["sub"])
@@ -182,7 +186,7 @@ class C03Spec:
             top.domains += cds[name]
         top.submodules.core = wrap(Core(), cfg["top"])
         frag = elaborate(top)
-        regs = [cnt, rl, sp] + ([cntb, rlb, sq] if logic_b else []) + box["rdata"]
+        regs = [cnt, rl, sp, rw] + ([cntb, rlb, sq, rs] if logic_b else []) + box["rdata"]
         found, mems = walk_state(frag)
         clocks = [cds[n].clk for n in mdl.dom_names]
         arsts = [cds[n].rst for n in mdl.arst_doms]
@@ -260,6 +264,9 @@ def configs(rep):
         out.append({"doms": {"sync": ka}, "top": [], "sub": [], "logic_b": False, "ports": "nt"})
         for kb in KINDS:
             out.append({"doms": {"sync": ka, "other": kb}, "top": [], "sub": [], "logic_b": True})
+    # short-form ResetInserter(r1) over the two-domain core (its reset_less signal rs is split between the two domains)
+    for top in (["R1"], ["R1", "E1"], ["E1", "R1"], ["R1", "DR"]):
+        out.append({"doms": none2, "top": top, "sub": [], "logic_b": True})
     # family R: renames whose target already carries statements in the same module (DR over the two-domain core), and
     # renames that merge two source domains into a third one (DM), for both orders of first use of the domains in the
     # module, alone and nested with inserters; parent/child merges with the memory ports and the split signal
@@ -344,6 +351,7 @@ NEED = ["active_edge", "inactive_edge", "simultaneous_active_edges", "other_doma
         "per_domain_reset_applied", "per_domain_enable_freezes", "idle_domain_reset_control_asserted",
         "idle_domain_enable_control_deasserted", "transparent_read", "transparent_read_sees_same_edge_write",
         "transparent_read_gated_by_enable", "gated_transparent_read_would_change", "gated_read_would_change",
+        "partially_driven_reset_less_not_init_under_inserted_reset", "partially_driven_reset_less_not_init_under_domain_reset",
         "rename_onto_populated_domain_same_module:ab", "rename_onto_populated_domain_same_module:ba",
         "merge_two_sources_same_module:ab", "merge_two_sources_same_module:ba", "merge_sources_of_parent_and_child"]
 
